@@ -1,6 +1,6 @@
 #!/bin/bash
 # usage: tools/sweep.sh "<seeds>" <tier> [ids...]  -- runs every check at the given seeds; prints one line per run; any VIOLATION on the clean tree is an alarm to examine
-cd /verif
+cd "$(dirname "$0")/.."
 SEEDS=${1:-"1 2 3"}; TIER=${2:-quick}; shift 2
 IDS=${@:-"C01 C02 C03 C04 C05 C06 C07 C08 C09 C10 C11 C12 C13 C14 C15 C16 C17 C18 C19 C20"}
 for s in $SEEDS; do for id in $IDS; do
